@@ -6,6 +6,8 @@ package w
 // explicit decision steps so that a failing schedule is its own replay file.
 
 import (
+	"hash/fnv"
+	"sync"
 	"time"
 
 	"verifsim/vsched"
@@ -161,5 +163,34 @@ func (b *bRun) finish() {
 		for _, t := range b.S.Trace {
 			r.Logf("sched %s", t)
 		}
+	}
+}
+
+// selChooser owns the choice Go would make at random when a select of the code
+// under test finds several cases ready (instrumenter rewrite 4b): the case polled
+// first is a pure function of the case seed, the select's source position and how
+// many times that select has run.
+type selChooser struct {
+	mu   sync.Mutex
+	seed uint64
+	cnt  map[string]uint64
+}
+
+func (sc *selChooser) pick(n int, site string) int {
+	sc.mu.Lock()
+	k := sc.cnt[site]
+	sc.cnt[site] = k + 1
+	sc.mu.Unlock()
+	h := fnv.New64a()
+	h.Write([]byte(site))
+	x := NewRng(sc.seed ^ h.Sum64() ^ (k+1)*0x9e3779b97f4a7c15)
+	return x.Intn(n)
+}
+
+func init() {
+	preExec = func(c *Case) func() {
+		sc := &selChooser{seed: c.Seed, cnt: map[string]uint64{}}
+		vsched.SetSelectHook(sc.pick)
+		return func() { vsched.SetSelectHook(nil) }
 	}
 }
